@@ -180,7 +180,7 @@ Proof.
 Qed.
 
 Theorem gcm_open_seal (k n a p : list N) : gcm_open k n a (gcm_seal k n a p) = Some p.
-Proof. apply gcm_open_seal_ks. Qed.
+Proof. unfold gcm_open, gcm_seal. apply gcm_open_seal_ks. Qed.
 
 Lemma gcm_seal_length k n a p : length (gcm_seal k n a p) = (length p + 16)%nat.
 Proof.
